@@ -110,7 +110,11 @@ func buildTracktools() error {
 	if c20Bin != "" {
 		return nil
 	}
-	out := filepath.Join(os.Getenv("VERIF_ROOT"), "work", "bin", "tracktools")
+	work := os.Getenv("VERIF_WORK")
+	if work == "" {
+		work = filepath.Join(os.Getenv("VERIF_ROOT"), "work")
+	}
+	out := filepath.Join(work, "bin", "tracktools")
 	cmd := exec.Command("go", "build", "-o", out, "./cmd/tracktools")
 	cmd.Dir = os.Getenv("VERIF_REPO")
 	if b, err := cmd.CombinedOutput(); err != nil {
